@@ -178,4 +178,19 @@ CHECKS = {
                  extra=OP_EXTRA, instrument=OP_INSTR, gomaxprocs=1),
         ],
     },
+    "C18": {
+        "level": "model_checking",
+        "engine": "E1",
+        "technique": "exhaustive enumeration of arrival patterns x (interval, burst) on the assembled operator with the rate limiter compiled against the virtual clock",
+        "level_text": "golang.org/x/time/rate is compiled (by overlay) against the virtual-time shim, so the limiter's clock reads and timer waits are owned by the scheduler. For (I,B) in {(1s,1),(2s,3),(500ms,2)} and for a hook without settings, every arrival pattern of up to 4 (quick) / 5 (thorough) changes with gaps from {0, I/2, I, 2I} and hook durations {0, I} is run through the real operator (Synchronization run included); oracle on the virtual start times of the hook's executions: for all i<j, j-i+1 <= B + ceil((t_j-t_i)/I); a hook without settings in another queue starts when its event arrives; without settings a hook is delayed only by its own previous run.",
+        "level_note": "Trusted: virtual clock and scheduler; x/time/rate itself is the instrumented real source from the module cache. Default schedule only (the property quantifies over arrival patterns; interleavings of the queue machinery are explored by C03/C17).",
+        "rule": "product enumeration of (I,B) x gap sequences x hook duration; non-trivial = >= 2 arrivals; distinct = distinct start-time sequence",
+        "parts": [
+            part("c18", "pkg/shell-operator", "TestVerifC18", ["zz_verif_c18_test.go", "zz_verif_c04_test.go", "zz_verif_c03_test.go", "zz_verif_fixture_test.go"], shards={"quick": 16, "thorough": 16},
+                 extra=OP_EXTRA, gomaxprocs=1,
+                 instrument={"files": OP_INSTR["files"] + [
+                     {"path": "/root/go/pkg/mod/golang.org/x/time@v0.11.0/rate/rate.go", "sync": True, "time": True, "conc": True, "as": "pkg/zzverif/vrate/rate.go"},
+                     {"path": "pkg/hook/hook.go", "imports": {"golang.org/x/time/rate": "github.com/flant/shell-operator/pkg/zzverif/vrate"}}]}),
+        ],
+    },
 }
